@@ -36,6 +36,28 @@ def bl(hexs):
     return "(unwords %d %s)" % (len(b), zl(ws))
 
 
+KIND = {"int": 0, "float": 1, "bool": 2, "string": 3}
+
+
+def whole_term(c):
+    """the model READER on the bytes of the real file: check_whole file blocks-table trailer-fields expected-series"""
+    if not c.get("file") or not c.get("st") or c.get("oracle"):
+        return None
+    lim, es = c["lim"], []
+    for si, se in enumerate(c["series"]):
+        n = len(se["times"])
+        if si >= len(c["st"]) or len(c["st"][si]) != len(se["cols"]) + 1:
+            return None
+        trs = ";".join("(%d, %d)" % (se["times"][lo], se["times"][min(lo + lim, n) - 1]) for lo in range(0, n, lim))
+        cols = []
+        for ci, col in enumerate(se["cols"] + [{"t": "time", "nulls": [0] * n}]):
+            vs = ";".join(boolsl([1 - x for x in col["nulls"][lo:lo + lim]]) for lo in range(0, n, lim))
+            cols.append("(%d, ([%s], mkStat %s))" % (KIND.get(col["t"], 4), vs, " ".join(str(int(x)) for x in c["st"][si][ci])))
+        es.append("(%d, ([%s], [%s]))" % (se["id"], trs, ";".join(cols)))
+    tbl = ";".join("(%s, %s)" % (bl(a), bl(b)) for a, b in c.get("blocks", []))
+    return "(check_whole %s [%s] %s [%s])" % (bl(c["file"]), tbl, zl(c["vals"]), ";".join(es))
+
+
 def case_term(c):
     """Coq term of type Z for one case, or None when the case carries nothing to evaluate; raises ValueError when the
     harness output cannot be interpreted (unknown mode tag, missing third-party decode)."""
@@ -87,10 +109,13 @@ def case_term(c):
         if c.get("v1"):
             t = "(%s + 16 * check_string_v1 %s %s)" % (t, ss, bl(c["v1"]))
         return t
-    if k == "file":
+    if k in ("file", "compact"):
         if not c.get("hex"):
             return None
         t = "(check_trailer %s %s)" % (zl(c["vals"]), bl(c["hex"]))
+        wt = whole_term(c)
+        if wt:
+            t = "(%s + 4096 * %s)" % (t, wt)
         words = []
         for si, se in enumerate(c.get("series", [])):
             if si >= len(c.get("st") or []):
@@ -141,6 +166,12 @@ def case_term(c):
         rg = lambda a, b: "(%s, %s)" % (zs(a), zs(b))
         return "(check_ranges [%s] %s [%s])" % (";".join(rg(a, b) for a, b in mf["chunks"]), rg(*mf["trailer"]),
                                                ";".join("(%d, %s)" % (n, rg(a, b)) for n, a, b in mf["blocks"]))
+    if k == "merge":
+        mg = c.get("mg") or {}
+        if c.get("oracle") or not mg.get("got"):
+            return None
+        st = lambda f: "(mkStat %s)" % " ".join(str(int(x)) for x in f)
+        return "(check_merge_%s %s %s %s)" % (mg["kind"], st(mg["a"]), st(mg["b"]), st(mg["got"]))
     if k == "preagg":
         pa = c["pa"]
         if any(m.get("got") is None for m in pa["modes"]) or len(pa["modes"]) == 0:
@@ -447,8 +478,10 @@ def nontrivial(c):
         return c.get("typ", 0) > 0 and c.get("ppanic", 0) > 10
     if c["k"] == "col":
         return c.get("typ", 0) > 0
-    if c["k"] == "file":
+    if c["k"] in ("file", "compact"):
         return len(c.get("series", [])) > 0
+    if c["k"] == "merge":
+        return bool((c.get("mg") or {}).get("got"))
     if c["k"] == "rows":
         return c.get("npref", 0) > 10
     if c["k"] == "mfile":       # more than one series and at least one row lookup through the reopened file
@@ -475,6 +508,8 @@ def consts_text(obj):
         lines.append("Definition g_%s : Z := %d." % (k, c[k]))
     lines.append("Definition g_s8_table : list (Z * Z) := [%s]." % "; ".join("(%d, %d)" % (a, b) for a, b in obj["s8"]))
     lines.append("Definition g_scales : list Z := [%s]." % "; ".join(str(int(x)) for x in obj.get("scales", [])))
+    for k in sorted(obj.get("lists", {})):
+        lines.append("Definition g_%s : list Z := [%s]." % (k, "; ".join(str(int(x)) for x in obj["lists"][k])))
     lines.append("Ltac g_unfold := unfold %s in *." % ", ".join("g_" + k for k in names))
     return "\n".join(lines) + "\n"
 
@@ -489,7 +524,7 @@ def gen_consts(ck, binp):
         ck.broken.append("harness `c07 consts` failed: " + out[-300:])
         return False
     ck.write_gen("C07/Gen_Consts.v", consts_text(obj))
-    ck.cov["generated_constants"] = len(obj["consts"]) + len(obj["s8"]) + len(obj.get("scales", []))
+    ck.cov["generated_constants"] = len(obj["consts"]) + len(obj["s8"]) + len(obj.get("scales", [])) + sum(len(v) for v in obj.get("lists", {}).values())
     return True
 
 
@@ -509,6 +544,10 @@ def run_harness(ck, binp, n, extra, seed=None):
     if rc != 0 or not done:
         return None, "harness c07 failed rc=%d cases=%d: %s" % (rc, len(cases), out[-600:])
     return cases, None
+
+
+CANARY = "(check_merge_int (mkStat 1 2 3 4 5 6) (mkStat 0 9 1 1 1 1) (mkStat 1 2 3 4 5 6))"
+stats_canaries = [0]
 
 
 def evaluate(ck, cases):
@@ -535,29 +574,39 @@ def evaluate(ck, cases):
         shards.append(cur)
     files = []
     for s, ids in enumerate(shards):
-        txt = ("From Coq Require Import ZArith List Bool. From OG Require Import C07.Model C07.ModelRows C07.ModelFile C07.ModelPreAgg C07.Corr.\n"
+        # permanent canary: the last term of every shard is a deliberately falsified case (a merge whose claimed result is
+        # wrong); it must come back as the mismatch code 2, else the evaluation of the shard is not to be trusted
+        txt = ("From Coq Require Import ZArith List Bool. From OG Require Import C07.Model C07.ModelRows C07.ModelFile C07.ModelPreAgg C07.ModelStats C07.Corr C07.Corr2.\n"
                "Import ListNotations. Open Scope Z_scope.\n"
-               "Definition R : list Z := Eval vm_compute in [\n%s\n].\nPrint R.\n") % ";\n".join(terms[i] for i in ids)
+               "Definition R : list Z := Eval vm_compute in [\n%s\n].\nPrint R.\n") % ";\n".join([terms[i] for i in ids] + [CANARY])
         files.append(("cases%d" % s, txt))
     codes = [None] * len(cases)
     res = ck.coq_eval_many(files, timeout=1200)
     for s, (rc, o) in enumerate(res):
         m = re.search(r"R\s*=\s*\[(.*?)\]\s*:\s*list Z", o, re.S)
         nums = [int(x) for x in re.findall(r"-?\d+", m.group(1))] if m else []
-        if rc != 0 or not m or len(nums) != len(shards[s]):
+        if rc != 0 or not m or len(nums) != len(shards[s]) + 1 or re.search(r"[^\d;\s-]", m.group(1)):
             ck.broken.append("model evaluation failed on shard %d: %s" % (s, o[-400:]))
             continue
+        if nums[-1] != 2:
+            ck.broken.append("model evaluation canary of shard %d came back as %r instead of the mismatch code 2" % (s, nums[-1]))
+            continue
+        nums = nums[:-1]
+        stats_canaries[0] += 1
         for i, v in zip(shards[s], nums):
             codes[i] = v
     return codes
 
 
 def slim(c):
-    d = {k: v for k, v in c.items() if k not in ("hex", "c", "d", "dv", "segs", "recj", "rowsj", "cm", "cms")}
+    d = {k: v for k, v in c.items() if k not in ("hex", "c", "d", "dv", "segs", "recj", "rowsj", "cm", "cms", "file", "blocks")}
     if c.get("pa"):
         d["pa"] = c["pa"]
     if c.get("mf"):
         d["mf"] = c["mf"]
+    for k in ("cp", "mg"):
+        if c.get(k):
+            d[k] = c[k]
     if len(c.get("hex", "")) <= 400:
         d["hex"] = c.get("hex", "")
     return d
@@ -569,7 +618,7 @@ def classify(ck, cases, codes, stats):
     for i, c in enumerate(cases):
         code = codes[i]
         orc = c.get("oracle")
-        if orc and c["k"] == "file" and c.get("fails"):
+        if orc and c["k"] in ("file", "compact") and c.get("fails"):
             # every difference found in the file is classified on its own
             unknown = []
             for f in c["fails"]:
@@ -621,9 +670,10 @@ def classify(ck, cases, codes, stats):
             continue
         if c["k"] == "float":
             code &= 15      # the repaired model is the reference when the round trip is exact
-        if c["k"] == "file":
+        if c["k"] in ("file", "compact"):
+            whole = code >> 12          # flags of the model reader run on the real file
             w = (code >> 4) & 15
-            code &= 15
+            code = (code & 15) | (whole << 5)
             if w & 1:
                 # the stored statistics are not the reference (repaired builders, repaired codec) although the direct
                 # oracle did not look at them (column with a NaN): which variant of the tree explains them?
@@ -688,7 +738,7 @@ def main(ck):
         rp = json.load(open(ck.replay))
         cf = os.path.join(ck.work, "replay.case")
         open(cf, "w").write(json.dumps({k: v for k, v in rp.get("case", {}).items()
-                                        if k in ("k", "vals", "strs", "algo", "typ", "payload", "lim", "cols", "seed", "series", "rep", "cmode", "pa", "mf")}) + "\n")
+                                        if k in ("k", "vals", "strs", "algo", "typ", "payload", "lim", "cols", "seed", "series", "rep", "cmode", "pa", "mf", "cp", "mg")}) + "\n")
         n, extra = 0, [cf]
     cases, err = run_harness(ck, binp, n, extra)
     if err:
@@ -711,7 +761,7 @@ def main(ck):
                                             (sig_wal_header(c) and ck.match_finding("C07-wal-header-only-tail")) or
                                             (sig_same_u16(c) and ck.match_finding("C07-samevalue-u16-len")) or
                                             (sig_pa_zero_flag(c) and ck.match_finding("C07-preagg-vlc-zero-flag")) or
-                                            (c["k"] == "file" and c.get("fails") and all(file_fail_finding(ck, c, f)[0] for f in c["fails"]))):
+                                            (c["k"] in ("file", "compact") and c.get("fails") and all(file_fail_finding(ck, c, f)[0] for f in c["fails"]))):
                     ck.violation({"kind": "direct-oracle", "what": c["oracle"], "case": slim(c),
                                   "explanation": "found by the fresh stream after a model/implementation disagreement"})
                     stats["violations"] += 1
@@ -719,7 +769,7 @@ def main(ck):
         if not stats["violations"]:
             i, code = mism[0]
             ck.broken.append("correspondence C07 (%s block): model and implementation differ, flags=%d "
-                             "(1 mode not applicable, 2 bytes differ, 4 model decoder differs, 8 prefix accepted; file: 16 stored statistics differ from the builder models)" % (cases[i]["k"], code))
+                             "(1 mode not applicable, 2 bytes differ, 4 model decoder differs, 8 prefix accepted; file: 16 stored statistics differ from the builder models, 32.. flags of the model reader on the real file << 5)" % (cases[i]["k"], code))
             ck.nofail_detail = {"kind": "correspondence", "case_index": i, "flags": code, "case": slim(cases[i]),
                                 "mismatching_cases": len(mism)}
     # stale open findings (reported, never a violation)
@@ -735,7 +785,7 @@ def main(ck):
         sk = "%s/%s" % (c["k"], c.get("shape"))
         shapes[sk] = shapes.get(sk, 0) + 1
         if nontrivial(c):
-            seen.add(json.dumps([c["k"], c.get("vals"), c.get("strs"), c.get("algo"), c.get("typ"), c.get("payload"), c.get("shape"), c.get("cols"), c.get("seed"), c.get("series"), (c.get("pa") or {}).get("f"), c.get("cmode")]))
+            seen.add(json.dumps([c["k"], c.get("vals"), c.get("strs"), c.get("algo"), c.get("typ"), c.get("payload"), c.get("shape"), c.get("cols"), c.get("seed"), c.get("series"), (c.get("pa") or {}).get("f"), c.get("cmode"), c.get("cp"), c.get("mg")]))
     ck.cov["evaluations"] = len(cases)
     ck.cov["distinct_nontrivial"] = len(seen)
     ck.cov["traces_validated_against_impl"] = sum(1 for i, c in enumerate(cases) if codes[i] is not None) - len(mism)
@@ -745,5 +795,6 @@ def main(ck):
     ck.cov["mode_histogram"] = hist
     ck.cov["shape_histogram"] = shapes
     ck.cov["known_finding_cases"] = stats["known"]
+    ck.cov["evaluation_canaries_returned"] = stats_canaries[0]
     ck.cov["preagg_writer_choice_differs_from_model_of_todays_writer"] = stats.get("pa_writer_choice_differs", 0)
     ck.cov["samples"] = [slim(c) for c in cases[3:6]]
